@@ -45,6 +45,7 @@ type FieldSpec struct {
 	Dims  int
 	Sim   string
 	Opt   string
+	Shape []byte // kind 'g': encoded geo shape (extra doc value)
 }
 
 type DocSpec struct {
@@ -67,6 +68,7 @@ type fieldProfile struct {
 	Dims  int
 	Sim   string
 	Opt   string
+	Shape bool // documents may carry an encoded geo shape in this field
 }
 
 type GenCfg struct {
@@ -146,8 +148,13 @@ func genCfg(c *Chooser, wantSyn, wantVec bool) *GenCfg {
 		if c.Prob(1, 8, "cfg.skipfreq") {
 			p.Opts |= index.SkipFreqNorm
 		}
+		if p.Opts.IncludeDocValues() && c.Prob(1, 10, "cfg.shape") {
+			p.Shape = true
+		}
 		if many {
-			p.Vocab = genVocab(c, 2, false)
+			// enough terms per field for the dictionaries of one segment to span more
+			// than 64 KiB (offsets that differ by exactly 2^16 then exist)
+			p.Vocab = genVocab(c, 14, false)
 		} else {
 			p.Vocab = genVocab(c, vocabSizes[c.Choose(len(vocabSizes), "cfg.vocab")], i == 0)
 		}
@@ -157,7 +164,7 @@ func genCfg(c *Chooser, wantSyn, wantVec bool) *GenCfg {
 	g.IDSpace = 0 // set by caller
 	g.MaxToks = 1 + c.Choose(6, "cfg.maxtoks")
 	if many {
-		g.MaxToks = 1
+		g.MaxToks = 5
 		g.Many = true
 	}
 	g.WideNums = c.Prob(1, 5, "cfg.widenums")
@@ -264,10 +271,17 @@ func genTextField(c *Chooser, p *fieldProfile, g *GenCfg, ap []uint64) FieldSpec
 		f.Len += []int{0, 130, 300, 70000}[c.Choose(4, "wide.len")]
 	}
 	if p.Opts.SkipFreqNorm() {
+		// frequency and norm are not recorded; term vectors, if the field has
+		// them, still are (this is what analysis produces for such a field)
 		for i := range f.Toks {
 			f.Toks[i].Freq = 0
-			f.Toks[i].Locs = nil
 		}
+	}
+	if p.Shape && nt > 0 && c.Bool("fld.shape") {
+		// a geo-shape field: its encoded shape is an extra doc-value term that is
+		// not in the dictionary
+		f.Kind = 'g'
+		f.Shape = []byte("SHAPE:" + p.Name + ":" + strconv.Itoa(c.Choose(5, "fld.shapev")))
 	}
 	return f
 }
@@ -289,7 +303,10 @@ func genDoc(c *Chooser, g *GenCfg, id string) DocSpec {
 			continue
 		}
 		reps := 1
-		if c.Prob(1, 5, "doc.array") {
+		if c.Prob(1, 5, "doc.array") && !p.Shape {
+			// (a shape field has one value per document here: which of several
+			// encoded shapes ends up in the doc values is not something any of the
+			// properties states)
 			reps = 2 + c.Choose(2, "doc.arrayn")
 		}
 		for r := 0; r < reps; r++ {
@@ -325,7 +342,7 @@ func genDoc(c *Chooser, g *GenCfg, id string) DocSpec {
 		cf := FieldSpec{Name: "_all", Kind: 'c', Opts: index.IndexField | index.IncludeTermVectors, Typ: 'c'}
 		idx := map[string]int{}
 		for _, f := range d.Fields {
-			if f.Name == "_id" || f.Kind != 't' || !f.Opts.IsIndexed() {
+			if f.Name == "_id" || (f.Kind != 't' && f.Kind != 'g') || !f.Opts.IsIndexed() {
 				continue
 			}
 			cf.Len += f.Len
@@ -450,6 +467,12 @@ func (f *simField) AnalyzedTokenFrequencies() index.TokenFrequencies {
 func (f *simField) NumPlainTextBytes() uint64 { return uint64(len(f.spec.Value)) }
 func (f *simField) Size() int                 { return 0 }
 
+// simShapeField implements index.GeoShapeField (zapx only asks for EncodedShape)
+type simShapeField struct{ simField }
+
+func (f *simShapeField) GeoShape() (index.GeoJSON, error) { return nil, nil }
+func (f *simShapeField) EncodedShape() []byte             { return f.spec.Shape }
+
 type simComposite struct{ simField }
 
 func (f *simComposite) Compose(field string, length int, freq index.TokenFrequencies) {}
@@ -539,6 +562,9 @@ func Materialize(b *BatchSpec, env *buildEnv) []index.Document {
 				d.fields = append(d.fields, &simSynField{base})
 			case 'v':
 				d.fields = append(d.fields, &simVecField{base})
+			case 'g':
+				base.tfs = makeTFs(fs.Toks)
+				d.fields = append(d.fields, &simShapeField{base})
 			default:
 				base.tfs = makeTFs(fs.Toks)
 				f := base
